@@ -153,6 +153,7 @@ def run(ctx):
         for i, l in enumerate(lines):
             if l.startswith("get") and i < len(out) and len(ctx.samples) < 4:
                 ctx.sample({"fields": describe(chunks[0][0], l.split()[1])[:6], "op": l, "impl": out[i][:160], "model": mo[i][:160]})
+    repr_stream(ctx, harness)
     for (l, rl) in rl_bad[:1]:
         ctx.fail("input", "recursion counter is %d after '%s'" % (rl, l), {"script": [l]}, sig={"class": "recurse_level"})
     seen = set()
@@ -180,6 +181,60 @@ def run(ctx):
         names = [o[0] for o in ctx.obligations if not o[1]]
         ctx.fail("obligation", "Lean obligations no longer check: " + "; ".join(names)[:300] + " :: " + lr.errors[-500:],
                  {"theorem": names, "lean_errors": lr.errors[-3000:]}, has_input=False)
+
+
+def repr_stream(ctx, harness):
+    """Representation suffixes (.r .i .m .a) are outside the Lean field model.  They are judged here by a relation the
+    Standards imply: a field defined on `in.<r>` must equal, window for window, the same field defined on an explicit
+    field `x = LINCOM 1 in.<r> 1 0` (multiplying by one and adding zero is exact).  Every field type with inputs, both
+    input positions, FLOAT64 and COMPLEX128 returns, every window of a small range, fresh handle per field."""
+    import struct
+    from checks.c10 import hx
+    rng = ctx.rng
+    chunks, metas = [], []
+    for i in range(24 if ctx.thorough() else 6):
+        n = 24
+        reps = ["r", "i", "m", "a"]
+        r1 = rng.choice(reps)
+        fmt = ["/VERSION 10", "/ENDIAN little", "/ENCODING none", "z RAW COMPLEX128 1", "cnt RAW UINT8 1", "w RAW COMPLEX64 1"]
+        zdata = b"".join(struct.pack("<dd", rng.randint(-9, 9) + 0.5, rng.randint(-9, 9) - 0.25) for _ in range(n))
+        wdata = b"".join(struct.pack("<ff", rng.randint(0, 4), rng.randint(0, 3)) for _ in range(n))
+        cdata = bytes(rng.choice([0, 1, 2, 2, 3]) for _ in range(n))
+        fmt += ["x LINCOM 1 z.%s 1 0" % r1, "y LINCOM 1 w.%s 1 0" % r1]
+        pairs = []
+        defs = [("MPLEX %s cnt 2 4", "d"), ("MPLEX cnt %s 1 3", "c"), ("WINDOW %s cnt GE 2", "d"), ("MULTIPLY %s cnt", "d"), ("MULTIPLY cnt %s", "d"),
+                ("DIVIDE %s cnt", "d"), ("PHASE %s 2", "d"), ("LINCOM 2 %s 2 1 cnt 1 0", "d"), ("LINCOM 2 cnt 1 0 %s 2 1", "d"), ("RECIP %s 4", "d"),
+                ("POLYNOM %s 1 2", "d"), ("LINTERP %s lut.txt", "d")]
+        for k, (d, role) in enumerate(defs):
+            src, expl = (("z.%s" % r1, "x") if role == "d" else ("w.%s" % r1, "y"))
+            fmt.append("a%d %s" % (k, d % src))
+            fmt.append("b%d %s" % (k, d % expl))
+            pairs.append(("a%d" % k, "b%d" % k, d % src))
+        L = ["reset", "file format " + hx("\n".join(fmt) + "\n"), "file z " + zdata.hex(), "file w " + wdata.hex(), "file cnt " + cdata.hex(),
+             "file lut.txt " + hx("-20 0\n0 5\n20 9\n"), "open rdonly"]
+        wins = [(s0, nn) for s0 in range(0, 12) for nn in (1, 3, 7)]
+        idx = []
+        for (a, b, d) in pairs:
+            for (s0, nn) in wins:
+                for t in ("f64", "c128"):
+                    # a fresh handle for each pair of reads: nothing cached from an earlier window
+                    L += ["open rdonly", "get %s 0 %d 0 %d %s" % (a, s0, nn, t), "open rdonly", "get %s 0 %d 0 %d %s" % (b, s0, nn, t)]
+                    idx.append((len(L) - 3, len(L) - 1, d))
+        chunks.append(L)
+        metas.append(idx)
+    res = streams.run_chunks(harness, chunks, "c01r")
+    for ci, (lines, out, crashed, err) in enumerate(res):
+        if crashed:
+            ctx.fail("input", "library aborted in the representation stream: %s" % err[-300:], {"script": lines[:len(out) + 1], "stderr": err[-2500:]}, sig={"class": "crash"})
+            continue
+        for (ia, ib, d) in metas[ci]:
+            ga, gb = streams.strip_rl(out[ia])[0], streams.strip_rl(out[ib])[0]
+            ctx.evaluations += 1
+            ctx.distinct.add(("repr", d.split()[0], d.split()[1][:2]))
+            if ga.replace("nan;nan", "nan").replace("nan;0", "nan") != gb.replace("nan;nan", "nan").replace("nan;0", "nan"):
+                ctx.fail("input", "'%s': %s gives '%s' but the same field on the explicit LINCOM of that representation gives '%s'" % (d, lines[ia], ga[:150], gb[:150]),
+                         {"script": lines[:7] + [lines[ia - 1], lines[ia], lines[ib]]}, sig={"class": "repr", "type": d.split()[0]})
+                break
 
 
 def replay(ctx, obj):
